@@ -772,9 +772,163 @@ def byte_edit(src, rng):
     return bytes(s)
 
 
+# ------------------------------------------------------------------ constructs left open
+# Every construct of the language that has an end - string literals in the three quote styles, template
+# placeholders, regular expression literals (and the character class inside one), block comments, brackets of
+# every kind, escape sequences, line continuations, statements and operators that want more - cut off before
+# that end: at the end of the input, before a line terminator that ends the input, and before a line terminator
+# that is followed by more text (also by the very closer that is missing).  The scanner loops of the lexer all
+# have the shape "read until the closer"; what ends them when the closer never comes is the subject here.
+
+LINE_TERMS = [b"\n", b"\n", b"\r", b"\r\n", b"\xe2\x80\xa8", b"\xe2\x80\xa9"]
+OPEN_KINDS = ["string_dq", "string_sq", "template", "template_placeholder", "regexp", "regexp_class", "block_comment",
+              "line_comment", "brackets", "escape_at_end", "line_continuation", "half_statement"]
+OPEN_BODY = [b"a", b"abc", b"x y", b" ", b"1", b"$", b"{", b"}", b"${", b"${a}", b"(", b")", b"[", b"]", b"//", b"/*", b"*/", b"/",
+             b"\\\\", b"\\n", b"\\t", b"\\u0041", b"\\x41", b"\\0", b"\xc3\xa9", b"\xe2\x82\xac", b"\t", b";", b",", b"<b>", b"=", b"+",
+             b"return", b"function", b"\x00", b"\x7f", b"\xff", b"#", b"@", b"?", b":"]
+OPENERS = [b"(", b"(", b"[", b"[", b"{", b"{", b"f(", b"a[", b"{a:", b"({", b"[{", b"([", b"(function(){", b"(function(a){ return ",
+           b"new X(", b"x = {", b"x = [", b"if (", b"if (a) {", b"for (", b"for (;;) {", b"for (var k in o) {", b"while (", b"while (a) {",
+           b"function f(", b"function f(a, ", b"function f() {", b"switch (x) {", b"switch (x) { case 1: {", b"try {",
+           b"try {} catch (e) {", b"try {} finally {", b"do {", b"with (a) {", b"l: {", b"a ? (", b"a.b(", b"a(b(", b"{a:{b:", b"[[", b"(("]
+OPEN_FILL = [b"", b"", b"", b"a", b"1", b"a, ", b"a, b", b"a: ", b"'s', ", b"a + ", b"a;", b"a\n", b" ", b"/* c */", b"a = ", b"!"]
+HALF = [b"a ?", b"a ? b", b"a ? b :", b"a +", b"a -", b"a *", b"a /", b"a %", b"a &&", b"a ||", b"a ==", b"a <", b"a >>>", b"a,", b"a =",
+        b"a +=", b"a /=", b"!", b"-", b"~", b"- -", b"++", b"--", b"a++ +", b"typeof", b"void", b"delete", b"new", b"new X(", b"new new",
+        b"a.", b"a.b.", b"a[", b"a instanceof", b"a in", b"var", b"var a =", b"var a,", b"var a = 1,", b"return", b"return (", b"throw",
+        b"if", b"if (", b"if (a)", b"if (a) b; else", b"for", b"for (", b"for (;", b"for (;;", b"for (;;)", b"for (var k in", b"while",
+        b"while (a)", b"do", b"do x; while", b"do x; while (", b"function", b"function f", b"function f(", b"function f()", b"function f(a,",
+        b"x = function", b"x = function(", b"(function", b"l:", b"l: m:", b"case", b"switch", b"switch (a)", b"switch (a) {",
+        b"switch (a) { case", b"switch (a) { case 1", b"switch (a) { case 1:", b"switch (a) { default", b"try", b"try {}", b"try {} catch",
+        b"try {} catch (", b"try {} catch (e", b"try {} catch (e)", b"try {} finally", b"with", b"with (a)", b"break", b"continue l",
+        b"({a:", b"({a", b"({a:1,", b"({get a", b"({get a(", b"({get a()", b"({set a(v", b"({'a'", b"({1:", b"[a,", b"[,", b"[a", b"f(a,",
+        b"f(a", b"a ? b : c ?", b"debugger", b"else", b"catch", b"finally", b")", b"]", b"}", b"a)", b"a]", b"a}", b"*/", b"a */"]
+
+
+def open_body(rng, forbid, n=None):
+    """text for the inside of a literal or comment that contains none of the byte strings in `forbid`"""
+    out = b""
+    for _ in range(rng.choice([0, 1, 1, 2, 3, 5, 9]) if n is None else n):
+        t = rng.choice(OPEN_BODY)
+        if any(f in out[-2:] + t for f in forbid):
+            continue
+        out += t
+    return out
+
+
+def open_construct(rng, kind):
+    """(construct left open, the closer it lacks)"""
+    r = rng
+    if kind in ("string_dq", "string_sq"):
+        q = b'"' if kind == "string_dq" else b"'"
+        body = open_body(r, [q, b"\n", b"\r", b"\xe2\x80"])
+        if r.random() < 0.25:
+            body += b"\\" + q + open_body(r, [q], 1)          # an escaped quote is not the end
+        return q + body, q
+    if kind == "template":
+        body = open_body(r, [b"`"])
+        if r.random() < 0.4:
+            body += r.choice([b"${a}", b"${ a + 1 }", b"${f('x')}", b"${\"s\"}", b"${{a:1}.a}", b"$", b"${}", b"\\`", b"\\${", b"}", b"'", b'"'])
+            body += open_body(r, [b"`"], 1)
+        return b"`" + body, b"`"
+    if kind == "template_placeholder":
+        head = b"`" + open_body(r, [b"`", b"${"], r.choice([0, 1, 2])) + b"${"
+        inner = r.choice([b"", b"a", b" a ", b"a +", b"a.", b"f(", b"f(a", b"{a:1", b"[1,", b"a ? b :", b"'s", b"\"s", b"'s'", b"`in", b"`in${b",
+                          b"`in${b}`", b"a}", b"a} tail", b"a}${", b"a}${b", b"/re", b"/re/", b"/* c", b"// c", b"a\n", b"\\", b"a \\"])
+        return head + inner, b"}`"
+    if kind == "regexp":
+        body = b"".join(x for x in (r.choice(RE_ATOMS) for _ in range(r.choice([0, 1, 2, 3, 5]))) if b"/" not in x or x == b"\\/")
+        if r.random() < 0.3:
+            body += r.choice([b"\\/", b"\\", b"(", b"(?:", b"(?=", b"{1,", b"\\u00", b"\\x4", b"\\c"])
+        pre = r.choice([b"", b"", b"", b"x = ", b"(", b"a, ", b"!", b"return "])
+        return pre + b"/" + (body if body[:1] not in (b"*", b"/") else b"a" + body), b"/"
+    if kind == "regexp_class":
+        body = r.choice([b"", b"a", b"a-", b"^", b"^/", b"/", b"a/b", b"\\]", b"\\", b"[", b"[:alpha:", b"a-z/g", b"\\/", b"]/[", b"/]/["])
+        return r.choice([b"", b"x = ", b"("]) + b"/" + r.choice([b"", b"a", b"(", b"\\d"]) + b"[" + body, b"]/"
+    if kind == "block_comment":
+        body = open_body(r, [b"*/"])
+        body += r.choice([b"", b"", b"*", b"/", b"* /", b"*\\/", b"/*", b"**", b"`", b"'", b'"', b"${"])
+        return r.choice([b"", b"", b"a ", b"a + ", b"x = 1; ", b"f(", b"'s' "]) + b"/*" + body, b"*/"
+    if kind == "line_comment":
+        body = open_body(r, [b"\n", b"\r", b"\xe2\x80"]) + r.choice([b"", b"`", b"'", b'"', b"/*", b"\\", b"${", b"(", b"# sourceMappingURL=x"])
+        return r.choice([b"", b"a ", b"a + ", b"x = 1; ", b"f( "]) + b"//" + body, b"\n"
+    if kind == "brackets":
+        d = r.choice([1, 1, 2, 2, 3, 4, 6, 10])
+        out, closers = b"", []
+        for _ in range(d):
+            o = r.choice(OPENERS)
+            out += o + r.choice(OPEN_FILL)
+            closers.append(b"".join({40: b")", 91: b"]", 123: b"}"}[b] for b in reversed(o) if b in b"([{"))
+        full = b"".join(reversed(closers))
+        m = r.random()
+        if m < 0.55:
+            keep = b""                                           # nothing closed
+        elif m < 0.8:
+            keep = full[:r.randrange(len(full))]                 # some closed, not all
+        elif m < 0.9:
+            keep = full[:-1] if len(full) > 1 else b""           # all but the outermost
+        else:
+            k = r.randrange(len(full))
+            keep = full[:k] + r.choice([b")", b"]", b"}"]) + full[k + 1:]    # one closer of the wrong kind
+            keep = keep[:r.randrange(1, len(keep) + 1)]
+        return out + r.choice([b"", b"a", b"1"]) + keep, full[len(keep):] or b")"
+    if kind == "escape_at_end":
+        q = r.choice([b'"', b"'", b"`", b"`", b"/", b""])
+        body = open_body(r, [b'"', b"'", b"`", b"/", b"\n", b"\r", b"\xe2\x80"], r.choice([0, 1, 2]))
+        if q == b"`" and r.random() < 0.4:
+            body += b"${a}"
+        esc = r.choice([b"\\", b"\\", b"\\", b"\\u", b"\\u0", b"\\u00", b"\\u004", b"\\x", b"\\x4", b"\\u{", b"\\u{4", b"\\u{41", b"\\0",
+                        b"\\c", b"\\\\\\", b"\\1", b"\\8"])
+        if q == b"":
+            return r.choice([b"", b"a", b"a.", b"var ", b"a + "]) + esc, b""
+        return r.choice([b"", b"", b"x = ", b"f("]) + q + body + esc, q
+    if kind == "line_continuation":
+        q = r.choice([b'"', b"'", b"`", b"`", b"/", b"", b"//", b"/*"])
+        body = open_body(r, [b'"', b"'", b"`", b"/", b"\n", b"\r", b"\xe2\x80"], r.choice([0, 1, 2]))
+        cont = b"\\" + r.choice(LINE_TERMS)
+        if r.random() < 0.25:
+            cont = cont + body[:2] + cont                        # two continued lines
+        return (r.choice([b"a", b"a +", b"var a ="]) + b" " if q == b"" else r.choice([b"", b"", b"x = "]) + q + body) + cont, \
+            (b"*/" if q == b"/*" else b"" if q in (b"", b"//") else q)
+    if kind == "half_statement":
+        return r.choice(HALF), b""
+    raise ValueError(kind)
+
+
+def open_text(rng, kind=None, nested=True):
+    """(kind, text): an open construct in some surroundings with some ending"""
+    r = rng
+    kind = kind or r.choice(OPEN_KINDS)
+    c, closer = open_construct(r, kind)
+    m = r.random()
+    if m < 0.3:
+        pre = b""
+    elif m < 0.6:
+        pre = r.choice(CTX_EXPR).split(b"{L}")[0]                  # what stands before a literal somewhere
+    elif m < 0.8:
+        e = print_expr(ExprGen(r, 3).expr(r.randint(0, 3)), r, 0.05, 0.3)
+        pre = e + r.choice([b" + ", b", ", b";\n", b"\n", b" = ", b" ? ", b"(", b" ", b";", b" || ", b"["])
+    elif nested:
+        k2 = r.choice(["template_placeholder", "template_placeholder", "brackets", "brackets", "half_statement", "template",
+                       "string_dq", "block_comment", "regexp_class"])
+        pre = open_construct(r, k2)[0] + r.choice([b"", b" ", b"\n"])   # open inside open
+    else:
+        pre = b""
+    e = r.random()
+    if kind == "line_continuation":
+        e = e * 0.7 + (0.0 if e < 0.6 else 0.3)                   # mostly: the continuation IS the end of the input
+    if e < 0.5:
+        tail = b""
+    elif e < 0.7:
+        tail = r.choice(LINE_TERMS)
+    else:
+        tail = r.choice(LINE_TERMS) + r.choice([b"b", b"b;", b";x = 1", b"x = 1\n", b"  b", closer, closer, closer + b";", closer + b"\n",
+                                                b"b" + closer, b"*/", b"`", b"'", b'"', b"/", b")", b"}", b"]", b"})", b"// c", b"/* c */ b",
+                                                b"\n", b"\n\n" + closer])
+    return kind, pre + c + tail
+
+
 # ------------------------------------------------------------------ the property
 
-CLASSES = {"ok": 0, "err": 1, "panic": 2, "timeout": 3}
+CLASSES = {"ok": 0, "err": 1, "panic": 2, "crash": 2, "hang": 3, "timeout": 3}
 JUDGE_MAX = 2500        # larger inputs are observed only (extra), not run through the model
 BIG_QUICK = 10000       # never larger in the quick tier (a 10^6-deep nesting kills the process: F-C15-c)
 BIG_THOROUGH = 100000   # only in a child process under ulimit -v and a timeout
@@ -813,12 +967,26 @@ class C15(Prop):
     sizes = {"quick": 2300, "thorough": 40000}
     shard = 250
     design_ref = "DESIGN.md section 6 C15"
-    rule = ("stream 1 (31%): generated expression trees of the supported subset (depth <= 8 quick / 14 thorough) printed "
+    rule = ("stream 1 (28%): generated expression trees of the supported subset (depth <= 8 quick / 14 thorough) printed "
             "with minimal parentheses plus random redundant parentheses, white space, line breaks and comments, through "
             "ParseFile and (as `return e` / statement lists) ParseFunction; oracle = the generator's own tree; "
-            "stream 2 (23%): 1-3 byte-level mutations of those texts over the subset alphabet, Go vs model on tree / error; "
-            "stream 3 (22%): arbitrary bytes, invalid UTF-8, unterminated literals, every escape form, nesting up to 600 deep "
+            "stream 2 (21%): 1-3 byte-level mutations of those texts over the subset alphabet, Go vs model on tree / error; "
+            "stream 3 (17%): arbitrary bytes, invalid UTF-8, unterminated literals, every escape form, nesting up to 600 deep "
             "(judged), plus inputs up to 10^4 bytes (quick) observed only: must return, no panic, same answer twice; "
+            "stream 6 (10%): constructs left open - every construct of the language that has an end, cut off before it: "
+            "string literals in double quotes, single quotes and back-ticks (back-tick bodies with complete ${...} "
+            "placeholders, $, }, escaped back-ticks), a template placeholder `...${ with a half expression / another open "
+            "literal / an open comment inside, regular expression literals and the character class inside one, block "
+            "comments, line comments, 1-10 nested brackets of every kind ( [ { f( a[ {a: function bodies, statement "
+            "heads; none / some / all but one closed, one closer of the wrong kind), an escape sequence cut at every "
+            "length (\\ \\u \\u00 \\x4 \\u{4 ...) as the last thing of a string / template / regular expression / identifier, "
+            "a line continuation (\\ + LF, CR, CRLF, U+2028, U+2029) as the last thing of the input in each literal kind, in a "
+            "comment and outside, and about 130 half statements and dangling operators; each alone, after what stands "
+            "before a literal in about 100 surroundings, after a generated expression, or inside another open construct; "
+            "ending at the end of the input (50%), before a line terminator that ends the input (20%), before a line "
+            "terminator followed by more text - also by the missing closer itself (30%); as program and as function body "
+            "(where the wrapper's `\\n})` follows), 12% of the function cases with the open construct in the parameter "
+            "list; a fifth of them additionally in processes of their own; evidence counter open_construct_endings; "
             "stream 4 (13%): the comment and literal forms the parser treats specially, each well-formed, truncated and "
             "malformed - source map comments (//# and //@ sourceMappingURL=, /*# ... */, as last line / followed by a line "
             "break / in the middle; data: URLs with base64 payload of valid, damaged and non-source-map JSON, cut base64, no "
@@ -831,21 +999,40 @@ class C15(Prop):
             "function body (also in the parameter list); each in a process of its own (twice in a row) and once more in a "
             "freshly started process; "
             "stream 5 (11%): histories - the case's input A (a special form in some surroundings 60%, a generated "
-            "expression with its tree 25%, hostile bytes 15%) is parsed 2-4 times in one process of its own, before / "
+            "expression with its tree 25%, hostile bytes or an open construct 15%) is parsed 2-4 times in one process of its "
+            "own, before / "
             "between / after 1-6 other inputs that share sub-strings with A (the same literal alone and in other "
             "surroundings and through the other entry point, another literal in A's surroundings, A with a byte edit, "
             "prefixes, suffixes, sub-strings; 6% of the histories put 20-150 different inputs between two parses of A), and "
             "once in a freshly started process; every input that occurs more than once in a history must get the same "
             "answer class and the same whole-tree fingerprint each time, and no parse may panic or hang. "
+            "EVERY parse of every stream runs in a child process under a watchdog: a parse that has not come back after "
+            "2 s of processor time (+0.05 s per kB^2; the unchanged code needs milliseconds) or 38 s on the clock is recorded "
+            "as class `hang` for that input, the child is ended and replaced, the input is asked again in a fresh process "
+            "alone, and the judge counts a hang (class 3) or a killed process (class 2) as a violation like a panic; the "
+            "shrinker minimises such an input like any other. "
             "non-trivial = at least 3 bytes; distinct by SHA-1 of the case")
     trusted = [
         "M (coq/Js/Lex.v, coq/Js/Parse.v) is a hand-written reading of otto/parser lexer.go, expression.go, statement.go, "
         "parser.go for the supported subset (one Gallina definition per Go function, open recursion closed on fuel); it "
         "stops at the first recorded error (answer class only: tree / error; no messages, no positions)",
         "PARTIAL: crash freedom and termination of the Go code itself (run-time panics such as nil dereference or index "
-        "out of range, stack exhaustion, syntax outside the model) are OBSERVED - every parse runs under recover() and a "
-        "watchdog; inputs above 10^4 bytes in a child process under ulimit -v - not proved; the theorems "
-        "C15_fuel / C15_no_model_panic are statements about M",
+        "out of range, stack exhaustion, endless loops, syntax outside the model) are OBSERVED, not proved; the theorems "
+        "C15_fuel / C15_no_model_panic are statements about M.  How they are observed (harness/c15.go): the runner parses "
+        "nothing itself; every parse runs in a child process (batches of plain cases share one, histories have their "
+        "own) in a goroutine under recover() and a watchdog that measures the PROCESSOR time the child has used since the "
+        "parse began (2 s + 0.05 s per kB^2; the slowest path of the unchanged code, 10^4 unmatched brackets, needs 75 ms) "
+        "and, as a second line, the clock (30 s + 4 times that).  A parse over the bound is class `hang` for that very "
+        "input; the child ends (a looping goroutine cannot be stopped), the runner - which reads the children's answers "
+        "line by line and so knows the input a child was busy with - starts a new one for the rest; a child killed by the "
+        "Go runtime (stack exhaustion, out of memory under a 6 GB address space limit) is class `crash` for the input it "
+        "was busy with.  A hang or crash seen in a shared child is asked again in a fresh process alone and that second "
+        "answer is the one recorded (until three were seen again; evidence counter "
+        "hangs_or_crashes_not_seen_again_alone).  Once 12 cases of a run are recorded with a hang or crash, the children "
+        "started later work with a quarter of the bounds (a tree on which many inputs hang must not take the check ten "
+        "minutes; a replay or a shrinking step is a run of its own under the full bounds).  An endless loop that shows only after particular earlier parses in the "
+        "same process is seen in the histories (stream 5) only, not among the plain cases; a parse that is merely slow "
+        "(below the bound) never alarms",
         "PARTIAL: 'the same answer every time' is OBSERVED, not proved: M is a function of the text by construction, the "
         "Go parser could keep state between calls (package variables, caches, pools).  Streams 4 and 5 parse equal inputs "
         "repeatedly in one process around related inputs and in a freshly started process and compare the answer class and "
@@ -867,7 +1054,8 @@ class C15(Prop):
         "non-ASCII characters outside strings and comments, U+2028/9 in comments; and ParseFile texts that contain "
         "`sourceMappingURL=data:application/json` (the inline source map is decoded by encoding/base64 and "
         "github.com/go-sourcemap/sourcemap: a payload that does not decode to a source map turns the answer into an error "
-        "value whatever the text is)",
+        "value whatever the text is).  About a quarter of the open constructs of stream 6 fall here (open regular "
+        "expressions, statement heads)",
         "mode 0 only (what pugjs passes to ParseFile; ParseFunction has no mode): IgnoreRegExpErrors and StoreComments are "
         "not exercised",
         "scope.allowIn is constantly true in the model (it is false only inside a for-statement head, outside the model)",
@@ -875,6 +1063,9 @@ class C15(Prop):
         "reach it (the judged inputs are at most 2500 bytes)",
         "invalid UTF-8 is modelled as one whole-text test (read() records an error for every malformed sequence and the "
         "parser reads the text strictly left to right)",
+        "termination is observed up to a bound: an input of kB size on which the parser needs more than 2 s of processor "
+        "time without looping forever would be reported as a hang (none known: 75 ms for 10^4 bytes), one "
+        "that loops for less than the bound and then returns is not a hang",
     ]
     not_yet_proved = [
         "the round-trip theorems quantify over the subset wf (Js/Show.v): identifiers, decimal integer literals, string "
@@ -886,6 +1077,9 @@ class C15(Prop):
         "(beyond the minimal and the fully parenthesised form) are covered by the correspondence streams only",
         "the theorems are about the model M; that the Go code computes what M computes is checked per run on generated "
         "cases, not proved",
+        "termination of the Go scanner loops (scanString, the regular expression, comment and identifier scanners) on "
+        "input that never supplies the closer is not proved: M terminates by construction (structural recursion on the "
+        "text / fuel, C15_fuel), the Go loops are watched per input (class hang)",
         "no theorem covers regular expression literals, source map comments, identifier escapes or the independence of an "
         "answer from earlier parses: these are checked by observation only (streams 4 and 5)",
     ]
@@ -1102,10 +1296,12 @@ class C15(Prop):
                 lit = tb(toks_raw(rng.choice(leaves), 0, None)[0])
         else:
             kind = "hostile"
-            a = self.gen_hostile(rng, tier)
+            a = self.gen_hostile(rng, tier) if rng.random() < 0.5 else self.gen_open(rng, tier)
+            kind = a.get("kind") or kind
             if len(a["src"]) > 400:
                 a["src"] = a["src"][:400]
             a["stream"], a["kind"] = 5, kind
+            lit = None
         a.setdefault("kind", kind)
         sa = step_of(a)
         rel = [step_of(x) for x in self.related(rng, tier, a, lit, kind)]
@@ -1138,22 +1334,44 @@ class C15(Prop):
         a["fresh"] = True
         return a
 
+    # ---- stream 6: constructs left open (see open_construct)
+    def gen_open(self, rng, tier, kind=None):
+        kind, src = open_text(rng, kind)
+        mode = "file" if rng.random() < 0.6 else "func"
+        params = b""
+        if mode == "func":
+            m = rng.random()
+            if m < 0.35 and not src.startswith(b"return"):
+                src = b"return " + src
+            elif m < 0.47:
+                # the open construct in the parameter list, a sound body behind it
+                params, src = rng.choice([b"", b"a, ", b"a /* c */, "]) + open_text(rng, kind, nested=False)[1], \
+                    rng.choice([b"return a", b"", b"a = 1;", b"return `t`"])
+            elif m < 0.55:
+                params = rng.choice(self.FUNC_PARAMS)
+        return mk(mode, src, 6, params=params, kind="open_" + kind)
+
     def generate(self, rng, n, tier):
         cases = []
         for i in range(n):
             m = rng.random()
-            if m < 0.25:
+            if m < 0.23:
                 cases.append(self.case_from_tree(self.gen_expr_case(rng, tier), rng))
-            elif m < 0.31:
+            elif m < 0.28:
                 cases.append(self.gen_stmts_case(rng, tier))
-            elif m < 0.51:
+            elif m < 0.46:
                 base = self.case_from_tree(self.gen_expr_case(rng, tier), rng)
                 src = mutate(unhx(base["src"]), rng)
                 cases.append(mk(base["mode"], src, 2))
-            elif m < 0.54:
+            elif m < 0.49:
                 cases.append(self.gen_wrapper_breaker(rng, tier))
-            elif m < 0.76:
+            elif m < 0.66:
                 cases.append(self.gen_hostile(rng, tier))
+            elif m < 0.76:
+                c = self.gen_open(rng, tier)
+                if rng.random() < 0.2:
+                    c["fresh"] = True      # some of them in processes of their own as well
+                cases.append(c)
             elif m < 0.89:
                 cases.append(self.gen_special(rng, tier))
             else:
@@ -1260,6 +1478,14 @@ class C15(Prop):
                 plain["stream"] = 0
                 yield plain
             return
+        # plain bytes: first without processes of its own and without a parameter list, then fewer bytes
+        if case.get("fresh"):
+            c = dict(case)
+            c.pop("fresh")
+            yield c
+        par = unhx(case.get("params", ""))
+        if par:
+            yield dict(case, params="")
         src = unhx(case["src"])
         n = len(src)
         step = max(1, n // 2)
@@ -1271,6 +1497,11 @@ class C15(Prop):
                     c["src"] = hx(cand)
                     c.pop("want", None)
                     yield c
+            step //= 2
+        step = max(1, len(par) // 2)
+        while par and step >= 1:
+            for a in range(0, len(par), step):
+                yield dict(case, params=hx(par[:a] + par[a + step:]))
             step //= 2
 
     def _retree(self, case, e):
@@ -1287,17 +1518,29 @@ class C15(Prop):
         return "string_of_list_ascii (model_text c)"
 
     def distribution(self, cases, obss):
-        names = {1: "generated", 2: "mutated", 3: "hostile", 4: "special_forms", 5: "histories"}
+        names = {0: "generated", 1: "generated", 2: "mutated", 3: "hostile", 4: "special_forms", 5: "histories", 6: "open_constructs"}
         d = {"stream1_generated": 0, "stream2_mutated": 0, "stream3_hostile": 0, "stream4_special_forms": 0,
-             "stream5_histories": 0, "mode_file": 0, "mode_func": 0,
-             "go_ok": 0, "go_err": 0, "go_panic": 0, "go_timeout": 0, "go_unequal_answers_to_one_input": 0,
+             "stream5_histories": 0, "stream6_open_constructs": 0, "mode_file": 0, "mode_func": 0,
+             "go_ok": 0, "go_err": 0, "go_panic": 0, "go_crash": 0, "go_hang": 0, "go_unequal_answers_to_one_input": 0,
+             "open_construct_endings": {"end_of_input": 0, "line_terminator_then_end": 0, "line_terminator_then_text": 0},
+             "hangs_or_crashes_not_seen_again_alone": 0,
              "max_src_bytes": 0, "src_bytes_hist": {}, "slowest_ms": 0,
              "special_form_kinds": {}, "special_form_answers": {}, "parses_in_histories": 0, "longest_history": 0,
              "history_inputs_parsed_more_than_once": 0, "fresh_process_comparisons": 0,
              "sourcemap_comment_last_line_file_mode": 0}
         for c, o in zip(cases, obss):
             st = c.get("stream", 3)
-            d["stream%d_%s" % (st, names[st])] += 1
+            d["stream%d_%s" % (max(st, 1), names[st])] += 1
+            if (c.get("kind") or "").startswith("open_"):
+                t = unhx(c["src"])
+                body = t.rstrip(b"\n\r").replace(b"\xe2\x80\xa8", b"\n").replace(b"\xe2\x80\xa9", b"\n")
+                end = "end_of_input" if t[-1:] not in (b"\n", b"\r") and t[-3:] not in (b"\xe2\x80\xa8", b"\xe2\x80\xa9") else \
+                    "line_terminator_then_end"
+                if end == "end_of_input" and (b"\n" in body[-12:] or b"\r" in body[-12:]):
+                    end = "line_terminator_then_text"
+                d["open_construct_endings"][end] += 1
+            if o.get("retry") and o["class"] not in ("hang", "crash"):
+                d["hangs_or_crashes_not_seen_again_alone"] += 1
             d["mode_" + c["mode"]] += 1
             d["go_" + o["class"]] = d.get("go_" + o["class"], 0) + 1
             d["go_unequal_answers_to_one_input"] += not o["same"]
@@ -1344,7 +1587,14 @@ class C15(Prop):
             cases.append(mk(rng.choice(["file", "func"]), soup(rng, rng.choice(sizes)), 3))
         e = ExprGen(rng, 9).expr(9)
         cases.append(mk("file", print_expr(e, rng, 0.1, 0.5), 3))
-        obs = {"cases": 0, "ok": 0, "err": 0, "panic": 0, "timeout": 0, "unequal_second_run": 0, "max_bytes": 0,
+        # long constructs left open: kilobytes of literal / comment / placeholder text and no closer
+        for kind in (OPEN_KINDS if tier == "thorough" else rng.sample(OPEN_KINDS[:7], 4)):
+            c, closer = open_construct(rng, kind)
+            n = rng.choice(sizes)
+            pad = rng.choice([b"a", b"ab ", b"\\n", b"${a}", b"x y", b"(", b"\xc3\xa9"]) if kind != "brackets" else c
+            big = c + pad * (n // len(pad))
+            cases.append(mk(rng.choice(["file", "func"]), big + rng.choice([b"", b"\n", b"\r\n" + closer]), 3))
+        obs = {"cases": 0, "ok": 0, "err": 0, "panic": 0, "crash": 0, "hang": 0, "unequal_second_run": 0, "max_bytes": 0,
                "slowest_ms": 0}
         ev["coverage"]["large_input_observation"] = obs
         try:
@@ -1367,7 +1617,7 @@ class C15(Prop):
             # process); since the repair the parser answers "Maximum nesting depth exceeded"
             for o in (b"(", b"[", b"{", b"!", b"(function(){", b"a=", b"new "):
                 big.append(mk("file", o * (1200000 // len(o)), 3))
-            child = {"cases": 0, "ok": 0, "err": 0, "panic": 0, "timeout": 0, "unequal_second_run": 0, "max_bytes": 0,
+            child = {"cases": 0, "ok": 0, "err": 0, "panic": 0, "crash": 0, "hang": 0, "unequal_second_run": 0, "max_bytes": 0,
                      "slowest_ms": 0, "child_died": 0}
             ev["coverage"]["child_process_observation"] = child
 
@@ -1408,7 +1658,7 @@ class C15(Prop):
             obs["unequal_second_run"] += not o["same"]
             obs["max_bytes"] = max(obs["max_bytes"], len(c["src"]) // 2)
             obs["slowest_ms"] = max(obs["slowest_ms"], o.get("ms", 0))
-            if o["class"] in ("panic", "timeout") or not o["same"]:
+            if o["class"] not in ("ok", "err") or not o["same"]:
                 n = len(c["src"]) // 2
                 small = {k: c[k] for k in ("mode", "params", "src")} if n <= 20000 else \
                     {"mode": c["mode"], "params": c["params"], "src_is": "%r... (%d bytes)" % (unhx(c["src"][:64])[:16], n)}
@@ -1416,7 +1666,8 @@ class C15(Prop):
                              "observation": o,
                              "what": "observation stream: the parser %s on a %d-byte input" % (
                                  "panicked" if o["class"] == "panic" else "did not return within the watchdog bound"
-                                 if o["class"] == "timeout" else "gave two different answers", len(c["src"]) // 2)})
+                                 if o["class"] in ("hang", "timeout") else "killed its process (fatal runtime error)"
+                                 if o["class"] == "crash" else "gave two different answers", len(c["src"]) // 2)})
 
 
 PROP = C15()
